@@ -173,6 +173,16 @@ register("C12",
          "Trusted: Coq kernel; translator/gen_adaptermaps.py (fail-closed on `.get(<..>.agg, ..)` over anything but a string dict literal); the measured tables and the matrix are produced by the harness; DuckDB. No axioms.",
          "Coq proof over generic vocabulary tables + obligations on translator-regenerated exporter tables and measured round-trip tables; exhaustive adapter x feature matrix with executed before/after queries", "DESIGN.md section 6/C12")
 
+register("C13",
+         "Machine-checked Coq: the adapter chosen for a file depends only on that file's suffix and on which of the cascade's markers its content holds, never on neighbouring files (C13_neighbours, for any decision tree); "
+         "a file kind passing the finite check is detected as its own format for every sub-list of its optional markers / every observed marker set (C13_signature_sound, C13_observed_sound); generated obligation C13_signatures over the decision tree "
+         "REGENERATED from loaders.load_from_directory on every run and the marker sets MEASURED on this run in the files each of 14 exporters writes (a theorem relative to measured signatures, stated as such); "
+         "files defining distinct model names are merged into the same result in any enumeration order, each model with its own definition (C13_merge, C13_order). "
+         "The tree is validated against the real cascade on synthetic files (adapters patched to report the choice); directories assembled from exporter outputs and shipped fixtures of several formats, flat and nested, are loaded and every file whose "
+         "own adapter extracts valid models must be handled by that adapter and contribute exactly those models. Partial: SML-repository short-circuit, python files and relationship inference are exercised only. Known finding: Omni files of sql-backed models.",
+         "Trusted: Coq kernel; translator/gen_detect.py (fail-closed); measured signatures; Model/Loader.v merge hand-written. No axioms.",
+         "Coq proof over a translator-regenerated decision tree (extensionality, finite enumeration) + merge order-independence; synthetic and assembled-directory correspondence", "DESIGN.md section 6/C13")
+
 PENDING = "check not built yet in this revision (see DESIGN.md section 10 build order)"
 
 
